@@ -314,7 +314,7 @@ def instances(tier):
             forms += ["ct2x3x2"]  # (3x3 exact tables: z3 returns unknown / exceeds 20 min per instance - not claimed)
         for form in forms:
             out.append(Instance("C10", "c10:u_table", dict(kind=kind, form=form), cover=["evaluated"], weight=10 if "t2" in form else 1,
-                                **({"time_limit": 1200} if tier == "thorough" else {})))
+                                **({"time_limit": 3600} if tier == "thorough" else {})))
         for form in (["t2x2x2", "t2x3x2"] if tier == "quick" else ["t2x2x2", "t2x3x2", "t2x2x3"]):
             out.append(Instance("C10", "c10:u_table", dict(kind=kind, form=form, light=True), name="c10:u_table/UF-light/%s/%s" % (kind, form),
                                 uf=True, cover=["evaluated"], weight=10))
